@@ -977,7 +977,15 @@ class VCGen:
                 parts.append(StringVal(p.value))
             else:
                 v, t = s.ev(p.value, st)
-                parts.append(s.fmt(v, t))
+                if p.conversion != -1 or p.format_spec is not None:
+                    # {x!r}, {x:.2f}: a different (uninterpreted) rendering than plain {x} -- never identified with it
+                    key = f'{p.conversion}|{ast.dump(p.format_spec) if p.format_spec is not None else ""}'
+                    nm_ = 'fmtspec_' + sha(repr(t) + key)
+                    if nm_ not in SPEC:
+                        SPEC[nm_] = dict(f=Function(nm_, sort(t), Ty.StringSort()), args=[t], ret=STR, unfold=None)
+                    parts.append(SPEC[nm_]['f'](v))
+                else:
+                    parts.append(s.fmt(v, t))
         if not parts:
             return StringVal(""), STR
         return (Concat(*parts) if len(parts) > 1 else parts[0]), STR
@@ -1207,6 +1215,11 @@ class VCGen:
                 return sp['f'](*vs), sp['ret']
             bi = getattr(s, 'bi_' + nm, None)
             if bi is not None:
+                # the modelled builtins are modelled for their plain positional forms only: an extra positional or keyword argument
+                # (eval(x, globals), sorted(x, key=...), round(x, ndigits=...), max(x, default=...)) changes their meaning
+                arity = {'len': 1, 'abs': 1, 'str': 1, 'int': 1, 'float': 1, 'eval': 1, 'set': 1, 'list': 1, 'isinstance': 2, 'round': 2, 'open': 2}
+                if e.keywords or (nm in arity and len(e.args) > arity[nm]) or any(isinstance(a_, ast.Starred) for a_ in e.args):
+                    raise Unsupported(f'{nm}() called with arguments outside its modelled form at line {e.lineno}')
                 return bi(e, st)
             ext = s.cur.get('externals', {})
             if nm in ext:
@@ -1237,9 +1250,19 @@ class VCGen:
                     raise Unsupported(f'no contract for method {f.attr} on {ot}')
                 return s.call_contract(q, o, ot, e, st)
             if m is not None:
+                s.builtin_method(e, f.attr)
                 return m(e, o, ot, st)
             raise Unsupported(f'method {f.attr} on {ot}')
         raise Unsupported('call form')
+
+    def builtin_method(s, e, attr):
+        """the model of a list/file method, for its plain positional form only (x.sort(reverse=True), x.pop(0), ... are not that form)"""
+        m = getattr(s, 'meth_' + attr, None)
+        if m is not None and e is not None:
+            arity = {'sort': 0, 'copy': 0, 'close': 0, 'read': 0, 'pop': 0, 'append': 1, 'extend': 1, 'remove': 1, 'write': 1, 'writelines': 1}
+            if e.keywords or len(e.args) != arity.get(attr, len(e.args)) or any(isinstance(a_, ast.Starred) for a_ in e.args):
+                raise Unsupported(f'.{attr}() called with arguments outside its modelled form at line {e.lineno}')
+        return m
 
     def resolve_function(s, nm):
         view = s.cur.get('callee_contracts', {}).get(nm)      # a summary contract chosen by the caller's contract (listed as an assumption)
@@ -2616,6 +2639,7 @@ class VCGen:
                         res.append(t_)
                     return res
             elif try_builtin is not None:
+                s.builtin_method(c, f.attr)
                 v, t = try_builtin(c, o, ot, st)
                 if target is not None:
                     s.assign(target, v, t, st, line)
